@@ -20,7 +20,7 @@ use poulpy_core::{
     },
 };
 use poulpy_hal::{
-    api::{ScratchOwnedAlloc, ScratchOwnedBorrow},
+    api::{ScratchOwnedBorrow},
     layouts::{DeviceBuf, Module, NoiseInfos, ScalarZnx, ScratchOwned, ToOwnedDeep, VecZnx, ZnxInfos, ZnxView, ZnxViewMut},
     source::Source,
 };
@@ -202,7 +202,7 @@ fn classes(c: &Case, bound: f64, e: f64, m2cls: usize) -> (bool, Vec<&'static st
 
 fn run_ext<B: FullBackend>(m: &Module<B>, c: &Case) -> Verdict {
     let n = m.n();
-    let mut scratch = ScratchOwned::<B>::alloc(SCRATCH);
+    let mut scratch = pzv_be::dirty_scratch::<B>(SCRATCH);
     let assign = c.op % 2 == 1;
     let opn = if assign { "glwe_external_product_assign" } else { "glwe_external_product" };
     let r = c.rank_out as usize;
@@ -254,7 +254,7 @@ fn fill_cell(cell: &mut GLWE<&mut [u8]>, cls: VClass, b: usize, n: usize, seed: 
 
 fn run_mat<B: FullBackend>(m: &Module<B>, c: &Case) -> Verdict {
     let n = m.n();
-    let mut scratch = ScratchOwned::<B>::alloc(SCRATCH);
+    let mut scratch = pzv_be::dirty_scratch::<B>(SCRATCH);
     let op = (c.op % 4) as usize;
     let opn = MAT_OPS[op];
     let assign = op % 2 == 1;
@@ -397,7 +397,7 @@ pub const CMUX_OPS: [&str; 4] = ["cmux", "cmux_assign_neg", "cmux_assign", "cswa
 
 fn run_cmux<B: FullBackend>(m: &Module<B>, c: &Case) -> Verdict {
     let n = m.n();
-    let mut scratch = ScratchOwned::<B>::alloc(SCRATCH);
+    let mut scratch = pzv_be::dirty_scratch::<B>(SCRATCH);
     let op = (c.op % 4) as usize;
     let opn = CMUX_OPS[op];
     let r = c.rank_out as usize;
@@ -514,7 +514,7 @@ pub fn build_tsk<B: FullBackend>(m: &Module<B>, c: &Case, sk: &GLWESecret<Vec<u8
 
 fn run_cells<B: FullBackend>(m: &Module<B>, c: &Case) -> Verdict {
     let n = m.n();
-    let mut scratch = ScratchOwned::<B>::alloc(SCRATCH);
+    let mut scratch = pzv_be::dirty_scratch::<B>(SCRATCH);
     let op = (c.op % 7) as usize;
     let opn = CELL_OPS[op];
     let r = c.rank_out as usize;
